@@ -13,7 +13,6 @@ package main
 // //go:norace and touches only fixed-size package variables.
 
 import (
-	"os"
 	"runtime"
 
 	hook "github.com/pion/rtcp/zz_simhook"
@@ -160,6 +159,9 @@ func yieldHook(site int) {
 		// started by the tree under test): it is not the task holding the token, so it must neither be
 		// scheduled nor touch any per-task state.  It runs under the Go scheduler like in production.
 		sForeign++
+		if site == -2 || site == -3 {
+			runtime.Gosched() // a foreign goroutine waiting in a rewritten lock loop must not monopolise the P
+		}
 		return
 	}
 	if !sActive {
@@ -249,13 +251,12 @@ func blockedYield(me int, mustSwitch bool) {
 			deliverDue(true)
 			return
 		}
-		if !mustSwitch {
-			runtime.Gosched() // waiting for a goroutine the simulator does not own
-			return
-		}
-		// every other task is blocked or done while a lock is held: the tree under test deadlocks on its own
-		os.Stderr.WriteString("simulation: task waits for a lock that no runnable task can release (deadlock inside the code under test)\n")
-		os.Exit(4)
+		// Nobody else can run.  The lock (or whatever is awaited) may be held by a goroutine the simulator does not
+		// own - a timer callback, a finalizer, a goroutine of the tree under test - which will release it when the
+		// Go scheduler lets it run; a genuine deadlock of the tree under test ends at the run watchdog.
+		_ = mustSwitch
+		runtime.Gosched()
+		return
 	}
 	recordSwitch(me, next, true)
 	sSwitches++
